@@ -264,7 +264,8 @@ Inductive dres := DOk (s : Z) (cum p : N) | DPanic | DDiverged.
 
 Definition finish (r : sres) : dres :=
   match r with
-  | Ret s lft rgt => DOk s lft (wsubP c rgt lft)   (* into_nonzero_unchecked *)
+  | Ret s lft rgt =>                (* into_nonzero().expect(..): a zero probability panics *)
+      let p := wsubP c rgt lft in if (p =? 0)%N then DPanic else DOk s lft p
   | Fail => DPanic
   | _ => DDiverged
   end.
@@ -303,14 +304,16 @@ Definition lq_quantile (c : lcfg) (dbg : bool) (lo hi : Z) (nl : Z -> N)
 
 (* ------------------------------------------------------ symbol_table iterator *)
 
-(* state: (Some symbol, left_sided_cumulative); None = a panic in [next];
-   a zero probability (into_nonzero_unchecked(0)) is lft visible as p = 0 *)
+(* state: (Some symbol, left_sided_cumulative); None = a panic in [next], which includes a
+   zero probability (into_nonzero().expect(..)) *)
 Fixpoint lq_iter (c : lcfg) (dbg : bool) (lo hi : Z) (nl : Z -> N)
          (fuel : nat) (symbol : Z) (lft : N) : option (list (Z * N * N)) :=
   match fuel with
   | O => Some []
   | S f =>
-      if symbol =? hi then Some [(symbol, lft, wsubP c (wpow2 c (PR c)) lft)]
+      if symbol =? hi then
+        let p := wsubP c (wpow2 c (PR c)) lft in
+        if (p =? 0)%N then None else Some [(symbol, lft, p)]
       else
         match caddS c dbg symbol 1 with
         | None => None
@@ -318,9 +321,11 @@ Fixpoint lq_iter (c : lcfg) (dbg : bool) (lo hi : Z) (nl : Z -> N)
             match lcum c dbg lo nl nx with
             | None => None
             | Some rgt =>
+                let p := wsubP c rgt lft in
+                if (p =? 0)%N then None else
                 match lq_iter c dbg lo hi nl f nx rgt with
                 | None => None
-                | Some r => Some ((symbol, lft, wsubP c rgt lft) :: r)
+                | Some r => Some ((symbol, lft, p) :: r)
                 end
             end
         end
